@@ -284,6 +284,7 @@ def _run_entry(E, body, rr, st, gs, args, contract, first):
         E.root_entry = (list(args), st0)
         E._roles_cache = None
         from . import specs as _specs
+        E.track_adv = _specs.root_key(body) in _specs.ADV_TRACK
         ap = _specs.ASKED_ONCE.get(_specs.root_key(body))
         E.asked_props = ap
         if ap:
